@@ -22,7 +22,7 @@ META = dict(
                 'only dynamic_evaluate(per_thread=False) and load_types_for_deserialization touch the process-wide store.'),
     level_note=('Trusted: Coq kernel; translator harness/translators/scope_defs.py; ScopesBase.v primitives (tied to thread_local.py by source fingerprints and by the correspondence); '
                 'extraction cross-checked against vm_compute. All 19 managers and the getters with logic (get_context, get_permission, current_mappings, get_dynamic_evaluate_fn) are regenerated from the source; '
-                'hand-written are only the specifications the generated loops are proved against (contextual_merge, detour_spec) and the top-of-stack read of the on-demand type registry. What the settings DO (formatting, type checking, ...) is not modelled: it is probed by the oracle only. Values are immutable in the model: aliasing between the stored options, the caller's argument dicts and dict objects shared between scopes / threads is decided by the oracle (arguments unchanged, deep restore, no leak) and by the correspondence.'),
+                'hand-written are only the specifications the generated loops are proved against (contextual_merge, detour_spec) and the top-of-stack read of the on-demand type registry. What the settings DO (formatting, type checking, ...) is not modelled: it is probed by the oracle only. Values are immutable in the model: aliasing between the stored options, the argument dicts of the caller and dict objects shared between scopes / threads is decided by the oracle (arguments unchanged, deep restore, no leak) and by the correspondence.'),
     rule=('a case is a well-nested program (or 2-4 programs and an event schedule); distinct by canonical program text; non-trivial when some scope is nested inside another scope '
           'or is left by an exception, or when at least two threads are inside scopes at the same time'),
     trusted_base=['translator harness/translators/scope_defs.py (fail-closed Python-subset compiler)',
